@@ -5,6 +5,7 @@
   `Model.OsFs`, and evaluates the durability-contract monitor on whole WAL workloads.
 -/
 import RaftWal.Model.OsFs
+import RaftWal.Generated.Fs
 namespace RaftWal.C07
 open RaftWal.OsFs
 
@@ -92,5 +93,91 @@ theorem metadb_init_atomic (tmp final : String) (hne : tmp ≠ final) :
     simp [metaInit, run, exec, OState.get, OState.set, hne, hne'] at hs
     subst hs
     simp [OState.get, hne, hne']
+
+/-! ## fsync failures: an acknowledged Sync means the directory entry is durable, whatever failed before -/
+
+/-- invariant of a handle on an existing file: once the `new` flag is cleared, the directory entry is durable -/
+def HInv (s : OState) (h : Handle) : Prop :=
+  (s.get h.name).exist = true ∧ (h.isNew = false → (s.get h.name).entryDurable = true)
+
+def StepPost (h : Handle) : Option (OState × Handle × Option Bool) → Prop
+  | none => False
+  | some (s', h', a) => HInv s' h' ∧ h'.name = h.name ∧
+      (a = some true → (s'.get h.name).entryDurable = true ∧ (s'.get h.name).dirty = false)
+
+theorem hstep_post (s : OState) (h : Handle) (op : HOp) (hi : HInv s h) :
+    StepPost h (hstep .afterDirSync s h op) := by
+  obtain ⟨he, hd⟩ := hi
+  have he' : (s.files h.name).exist = true := he
+  cases op with
+  | write =>
+    simp only [hstep, exec, OState.get, he', if_true, Option.map_some, StepPost, HInv]
+    refine ⟨⟨by simp [OState.set], ?_⟩, trivial, by simp⟩
+    intro hn
+    have := hd hn
+    simp [OState.get, OState.set] at this ⊢
+    exact this
+  | sync o =>
+    rcases o with ⟨fo, dok⟩
+    cases hn : h.isNew
+    · have hdur : (s.files h.name).entryDurable = true := hd hn
+      cases fo <;> cases dok <;>
+        simp [hstep, fileSync, hn, run, exec, OState.get, OState.set, HInv, StepPost, he', hdur]
+    · cases fo <;> cases dok <;>
+        simp [hstep, fileSync, hn, run, exec, OState.get, OState.set, HInv, StepPost, he']
+
+theorem hstep_inv (s : OState) (h : Handle) (op : HOp) (hi : HInv s h) :
+    ∃ s' h' a, hstep .afterDirSync s h op = some (s', h', a) ∧ HInv s' h' ∧ h'.name = h.name ∧
+      (a = some true → (s'.get h.name).entryDurable = true ∧ (s'.get h.name).dirty = false) := by
+  have hp := hstep_post s h op hi
+  cases hr : hstep .afterDirSync s h op with
+  | none => rw [hr] at hp; exact hp.elim
+  | some r =>
+    obtain ⟨s', h', a⟩ := r
+    rw [hr] at hp
+    exact ⟨s', h', a, rfl, hp⟩
+
+/-- **acknowledged_sync_is_durable**: on a handle for an existing file, after ANY history of writes and Syncs in
+    which either fsync may fail any number of times, a Sync that returns nil leaves the file's bytes fsynced and
+    its directory entry durable.  (With the code's policy: the `new` flag is cleared only after the directory fsync
+    succeeded.) -/
+theorem acknowledged_sync_is_durable (ops : List HOp) (s : OState) (h : Handle) (hi : HInv s h) :
+    ∃ s' h' a, hrun .afterDirSync s h ops = some (s', h', a) ∧ HInv s' h' ∧ h'.name = h.name ∧
+      (a = some true → (s'.get h.name).entryDurable = true ∧ (s'.get h.name).dirty = false) := by
+  induction ops generalizing s h with
+  | nil => exact ⟨s, h, none, rfl, hi, rfl, by simp⟩
+  | cons op ops ih =>
+    obtain ⟨s1, h1, a1, e1, i1, n1, p1⟩ := hstep_inv s h op hi
+    cases ops with
+    | nil => exact ⟨s1, h1, a1, by simp [hrun, e1], i1, n1, p1⟩
+    | cons op2 rest =>
+      obtain ⟨s2, h2, a2, e2, i2, n2, p2⟩ := ih s1 h1 i1
+      refine ⟨s2, h2, a2, ?_, i2, n2.trans n1, ?_⟩
+      · simp only [hrun, e1]; exact e2
+      · intro ha; rw [← n1]; exact p2 ha
+
+/-- a freshly created file meets the invariant (non-vacuity) -/
+example : HInv ((({} : OState).set "a.wal" { exist := true })) { name := "a.wal" } := by
+  simp [HInv, OState.get, OState.set]
+
+/-- clearing the flag before the directory fsync is known to have succeeded is NOT enough: the directory fsync fails
+    once, the retried Sync returns nil, and the entry is still not durable -/
+theorem flag_after_file_sync_refuted :
+    ∃ s' h', hrun .afterFileSync (({} : OState).set "a.wal" { exist := true }) { name := "a.wal" }
+        [.write, .sync ⟨true, false⟩, .sync ⟨true, true⟩] = some (s', h', some true) ∧
+      (s'.get "a.wal").entryDurable = false := by
+  refine ⟨_, _, rfl, ?_⟩
+  simp [OState.get, OState.set]
+
+/-- nor is clearing it before the file's fsync: the file fsync fails once, the retry is acknowledged -/
+theorem flag_before_file_sync_refuted :
+    ∃ s' h', hrun .beforeFileSync (({} : OState).set "a.wal" { exist := true }) { name := "a.wal" }
+        [.write, .sync ⟨false, true⟩, .sync ⟨true, true⟩] = some (s', h', some true) ∧
+      (s'.get "a.wal").entryDurable = false := by
+  refine ⟨_, _, rfl, ?_⟩
+  simp [OState.get, OState.set]
+
+/-- the policy read from fs/file.go is the one the theorem is about -/
+theorem flag_policy_from_source : FlagPolicy.ofCode Generated.fileSyncFlagPolicy = .afterDirSync := by decide
 
 end RaftWal.C07
